@@ -123,6 +123,8 @@ M = {
                 self.transport.write(pending)''', '''            pending = self.tls_conn.bio_read(8192)
             if pending:
                 self.transport.write(pending)''', 1)]),
+ "C06-m4-no-session-id-context": ("C06", "session id context not set on the PyOpenSSL context (the original defect)", [("src/nauyaca/security/pyopenssl_tls.py",
+    '    ctx.set_session_id(b"nauyaca-gemini")\n', '', 1)]),
  # ---- C07 ---------------------------------------------------------------
  "C07-m1-dispatch-every-read": ("C07", "awaiting flag never cleared", [(SP,
     "        self.awaiting_titan_content = False\n\n        try:\n            # Create async task for upload handler",
